@@ -31,6 +31,7 @@ import MutagenModel.Model.Container.Mp4
 import MutagenModel.Model.Container.Mp4M
 import MutagenModel.Model.Container.Mp4LoadM
 import MutagenModel.Model.Container.Mp4Reader
+import MutagenModel.Model.Container.Mp4Chapters
 import Driver.Util
 import Driver.FlacC
 namespace Driver
@@ -132,13 +133,16 @@ def mp4Op (a : Args) : String :=
             | none => "err mutagen"
             | some t => "ok " ++ showTags t
   | "loadm" =>
-    -- `loadM` (Model/Container/Mp4LoadM.lean): MP4(fileobj) after loadfile's read(0), without chapters, in a fault environment
-    -- -> ok tags=<-|n> items=<name:len,…> | err <PyErr>   data=<hex> pos=<n> log=<calls>
+    -- `loadFullM` (Model/Container/Mp4Chapters.lean): MP4(fileobj) after loadfile's read(0), chapters included, in a fault environment
+    -- -> ok tags=<-|n> items=<name:len,…> chap=<-|timescale;start:titlehex,…> | err <PyErr>   data=<hex> pos=<n> log=<calls>
     let s : FS := { data := a.bytes "data", pos := a.nat "pos" 0 }
-    showResult (loadM (envOf a) s) (fun r =>
-      match r.tags with
+    showResult (loadFullM (envOf a) s) (fun r =>
+      (match r.base.tags with
       | none => "tags=- items=-"
-      | some cs => s!"tags={cs.length} items=" ++ (if cs.isEmpty then "-" else ",".intercalate (cs.map fun c => s!"{toHex c.1}:{c.2.length}")))
+      | some cs => s!"tags={cs.length} items=" ++ (if cs.isEmpty then "-" else ",".intercalate (cs.map fun c => s!"{toHex c.1}:{c.2.length}"))) ++
+      (match r.chapters with
+      | none => " chap=-"
+      | some c => s!" chap={c.timescale};" ++ ",".intercalate (c.entries.map fun x => s!"{x.1}:{toHex (Utf8.encode x.2)}")))
   | "mf" =>
     -- `saveFullEntryM` (Mp4LoadM.lean): MP4Tags.save WITH the reads of Atoms(fileobj); call indices count from the first call
     -- behind loadfile's four probes
